@@ -125,6 +125,11 @@ func runC15(c *fw.Case) {
 	ordRej, faults := 0, 0
 	faultRate := gen.Pick(r, 0.0, 0.1, 0.3)
 	var retry *kv
+	reuseKeyBuf := r.Intn(2) == 0
+	keyBuf := make([]byte, 0, 64)
+	if reuseKeyBuf {
+		c.Obs("programs_reusing_one_key_buffer", 1)
+	}
 	for s := 0; s < steps; s++ {
 		var k, v []byte
 		retrying := false
@@ -171,7 +176,17 @@ func runC15(c *fw.Case) {
 		plan.mu.Lock()
 		plan.failData, plan.failIdx = fault == "data", fault == "index"
 		plan.mu.Unlock()
-		err := w.WriteNext(k, v)
+		// half of the programs hand every key over in ONE reused buffer (callers may recycle their key buffer
+		// as soon as WriteNext returns; the writer must keep copies)
+		kArg := k
+		if reuseKeyBuf {
+			keyBuf = append(keyBuf[:0], k...)
+			kArg = keyBuf
+			if k == nil {
+				kArg = nil
+			}
+		}
+		err := w.WriteNext(kArg, v)
 		plan.mu.Lock()
 		plan.failData, plan.failIdx = false, false
 		plan.mu.Unlock()
@@ -228,6 +243,9 @@ func runC15(c *fw.Case) {
 			}
 			accepted = append(accepted, kv{append([]byte{}, k...), v})
 		}
+	}
+	for i := range keyBuf[:cap(keyBuf)] {
+		keyBuf[:cap(keyBuf)][i] = 0xEE // the caller recycles its buffer before Close
 	}
 	if err := w.Close(); err != nil {
 		c.Violate("sstable-writer/close-error", "%s: Close: %v\n%v", cfg, err, trace)
